@@ -4,6 +4,7 @@ formula the model returns Ok S with S = { s | K,s |= f } under the path semantic
 Correspondence: CTL.modelcheck on live objects vs the extracted model (same presentation)."""
 from common import *
 from mccheck import *
+import props_c01_streams as c01s
 LEVEL = 'proof'
 
 KF = {'id': 'KF-print-a', 'what': "CTL.modelcheck memo keyed by printed form: Or(AtomicProposition('(p or q)'), Or('p','q')) is answered as the atom only"}
@@ -64,7 +65,7 @@ def run(R):
               'with set/frozenset/list/shared containers, add_edge between existing states, a new state with its edges and labels) - with a pool of '
               'formula OBJECTS (composed from shared sub-objects) reused across the calls (now and then also passed to CTLS/LTL.modelcheck); every '
               'answer must equal the proved model on the presentation read back at the time of the call, every formula object must keep its tree, '
-              'K must be left alone, and the returned sets are cleared / polluted by the caller after being recorded STACKED NEGATIONS: random formulas with 2-4 negations stacked on random subformulas (under quantifiers, between temporal operators, over derived operators and constants), object and text channel. JOINED ATOM NAMES: atom names of which one is the concatenation / blank- or comma-join / repetition / case variant of others ({p, q} and {pq} are different label sets), most structures with a state of each kind')
+              'K must be left alone, and the returned sets are cleared / polluted by the caller after being recorded STACKED NEGATIONS: random formulas with 2-4 negations stacked on random subformulas (under quantifiers, between temporal operators, over derived operators and constants), object and text channel. JOINED ATOM NAMES: atom names of which one is the concatenation / blank- or comma-join / repetition / case variant of others ({p, q} and {pq} are different label sets), most structures with a state of each kind. EDITED FORMULA OBJECTS (props_c01_streams.run_edited): a formula object f is built, then printed / hashed / model checked (or left alone), then EDITED by its owner through the public live operand list (f...subformulas()[i] = g, append, pop, reverse; atom.name = ...; 1-2 edits at random positions, the tree stays a CTL state formula), then checked alone and combined with a copy f_old of what it was before the edit (f.clone() taken before the edit, or rebuilt): f and not f_old, f_old --> f, E(f_old U f), ...; the answer must be that of the proved model on the tree the object has at the time of the call (the harness applies the edits to its own tuple; the tree read back from the object by class names and children must be that tuple); non-trivial = query with a temporal operator answered neither empty nor all. LABEL OBJECTS (run_label_objects): a sample of the cases on structures whose label sets hold objects that are merely == to the atom names - AtomicProposition objects of CTL/PL/LTL/CTLS, instances of a str subclass, mixtures with plain str - installed by the constructor, replace_labelling_function (sets / lists) or labels(s).add, some with renamed states. RAW OPERANDS (run_raw): formulas with over-weighted constants built the documented way from RAW Python operands (True / False / a str given to Not/Or/And/Imply/X/F/G/U/R, binary and/or through & and |, negation through ~): the object must have the intended tree and the answer must be that of the model on it')
     known_finding_probe(R)
     run_print_stream(R, 'C01', 'CTL', 1500 if R.thorough else 150)
     cs = cases(R)
@@ -86,7 +87,16 @@ def run(R):
     run_text(R, 'CTL', [c for c in rng.sample(cs, 6000 if R.thorough else 700) + wide[::4] + neg[::3] if all(len(g) > 2 or g[0] not in NARY for g in subformulas(c[1]))])
     # one structure queried, edited by its owner and queried again; formula objects reused
     run_live(R, 'CTL', 4000 if R.thorough else 300)
+    # formula objects with a history: built, printed / hashed / checked, edited by their owner through subformulas() / name, checked again
+    c01s.run_edited(R, 6000 if R.thorough else 500)
+    # label sets holding objects that are == to the atom names (AtomicProposition objects, str subclasses)
+    joined = joined_name_cases(rng, 1500 if R.thorough else 150, 'CTL')
+    c01s.run_label_objects(R, rng.sample(cs, 8000 if R.thorough else 600) + joined + wide[::5])
+    # formula objects built with raw bool / str operands and the overloaded operators, constants over-weighted
+    c01s.run_raw(R, c01s.raw_cases(rng, 8000 if R.thorough else 700))
 
 
 def replay(R, data):
+    if data['data'].get('stream') in c01s.STREAMS:
+        return c01s.replay_stream(R, data)
     replay_mc(R, data)
